@@ -23,7 +23,7 @@ def codeShape : Shape :=
     heurAuxIdeal := SqiGen.SignFlow.heurAuxIdeal, heurGuard := SqiGen.SignFlow.heurGuard,
     heurKeygen := SqiGen.SignFlow.heurKeygen,
     hdCommit := SqiGen.SignFlow.hdCommit, hdKeygen := SqiGen.SignFlow.hdKeygen,
-    exactValuation := SqiGen.SignFlow.exactValuation }
+    exactValuation := SqiGen.SignFlow.exactValuation, fixedDegGuard := SqiGen.SignFlow.fixedDegGuard }
 
 /-- every call site of the current source uses the failure code it receives, both signers guard the
 table index, valuations are exact -/
@@ -52,5 +52,13 @@ theorem keygen_never_bad_code (ts : List ClapTape) :
     (∀ s, flowKeygen codeShape codeShape.hdKeygen ts ≠ some (.bad s)) := by
   rw [code_shape_all_checked]
   exact ⟨keygen_never_bad ts, keygen_never_bad ts, keygen_never_bad ts⟩
+
+/-- `fixed_degree_isogeny` of the current source: for EVERY bit size of u (and both values of `small`) the call ends in
+success or explicit failure, never in a table access outside the strategies / a negative doubling count / u ≥ 2^length -/
+theorem fixed_degree_never_bad_code (small : Bool) (ub : Nat) (ri : Bool) :
+    (∀ s, flowFixedDeg P1 codeShape small ub ri ≠ .bad s) ∧ (∀ s, flowFixedDeg P3 codeShape small ub ri ≠ .bad s) ∧
+    (∀ s, flowFixedDeg P5 codeShape small ub ri ≠ .bad s) := by
+  rw [code_shape_all_checked]
+  exact ⟨(fixed_degree_never_bad P1 small ub ri).1, (fixed_degree_never_bad P3 small ub ri).1, (fixed_degree_never_bad P5 small ub ri).1⟩
 
 end SqiProps.C04Code
